@@ -140,6 +140,7 @@ func (p *Source) Run(ctx context.Context, s pconnector.SourceRunStream) error {
 	st.s.failSends = p.Cfg.FailAckSends
 	st.s.onFail = func() { p.W.Log.Add("Fault", "what", "ack-send-fail", "conn", p.Cfg.ID) }
 	run := p.run
+	st.s.onSent = func(req pconnector.SourceRunRequest) { p.onAck(req, run) }
 	p.mu.Unlock()
 	go func() {
 		<-ctx.Done()
@@ -221,33 +222,36 @@ func (p *Source) emitLoop(ctx context.Context, st *srcStream, run int) {
 func (p *Source) ackLoop(st *srcStream, run int) {
 	srv := st.Server()
 	for {
-		req, err := srv.Recv()
-		if err != nil {
+		if _, err := srv.Recv(); err != nil {
 			return
 		}
-		idxs := make([]int, 0, len(req.AckPositions))
-		raws := make([]string, 0, len(req.AckPositions))
-		p.mu.Lock()
-		for _, a := range req.AckPositions {
-			raws = append(raws, string(a))
-			src, i, ok := PosIdx(a)
-			if !ok || src != p.Cfg.ID {
-				i = -1
-			}
-			idxs = append(idxs, i)
-			if i > p.maxAcked {
-				p.maxAcked = i
-			}
-			if p.Cfg.Pruning && i > p.pruned {
-				p.pruned = i
-			}
+	}
+}
+
+// onAck runs in the engine's goroutine right after the ack message was handed over.
+func (p *Source) onAck(req pconnector.SourceRunRequest, run int) {
+	idxs := make([]int, 0, len(req.AckPositions))
+	raws := make([]string, 0, len(req.AckPositions))
+	p.mu.Lock()
+	defer p.mu.Unlock()
+	for _, a := range req.AckPositions {
+		raws = append(raws, string(a))
+		src, i, ok := PosIdx(a)
+		if !ok || src != p.Cfg.ID {
+			i = -1
 		}
-		// engine -> env output: logged when received
-		p.W.Log.Add("SrcAckMsg", "src", p.Cfg.ID, "idxs", idxs, "pos", raws, "run", run)
-		for k, i := range idxs {
-			p.W.Log.Add("SrcAck", "src", p.Cfg.ID, "idx", i, "pos", raws[k], "run", run)
+		idxs = append(idxs, i)
+		if i > p.maxAcked {
+			p.maxAcked = i
 		}
-		p.mu.Unlock()
+		if p.Cfg.Pruning && i > p.pruned {
+			p.pruned = i
+		}
+	}
+	// engine -> env output: logged when received
+	p.W.Log.Add("SrcAckMsg", "src", p.Cfg.ID, "idxs", idxs, "pos", raws, "run", run)
+	for k, i := range idxs {
+		p.W.Log.Add("SrcAck", "src", p.Cfg.ID, "idx", i, "pos", raws[k], "run", run)
 	}
 }
 
